@@ -404,4 +404,37 @@ func init() {
 			"wiring harness: viper.GetBool/GetString return the configured values; captured variables of the closures (engine, conn, queue) are opaque; engine-only (no native twin: the closures are not addressable from outside leader()/follower())",
 		},
 	}
+	props["C18"] = &Property{
+		Title: "wire codecs and stream framing lossless",
+		Instances: func(tier string) []*Instance {
+			pb := "regattapb"
+			var r []*Instance
+			for w := int64(0); w <= 8; w++ {
+				r = append(r, &Instance{Pkg: pb, Func: "VH_C18_mvcc", Args: []int64{w}, Unwind: 32, MaxPath: 400000})
+			}
+			for w := int64(0); w <= 5; w++ {
+				r = append(r, &Instance{Pkg: pb, Func: "VH_C18_api", Args: []int64{w}, Unwind: 32, MaxPath: 400000})
+			}
+			for w := int64(0); w <= 2; w++ {
+				r = append(r, &Instance{Pkg: pb, Func: "VH_C18_replication", Args: []int64{w}, Unwind: 32, MaxPath: 400000})
+			}
+			r = append(r, &Instance{Pkg: pb, Func: "VH_C18_pooledsend", Unwind: 32})
+			sn := "replication/snapshot"
+			r = append(r, &Instance{Pkg: sn, Func: "VH_C18_framing", Args: []int64{1, 0}, Unwind: 64})
+			r = append(r, &Instance{Pkg: sn, Func: "VH_C18_framing", Args: []int64{1, 1}, Unwind: 64})
+			if tier == "thorough" {
+				r = append(r, &Instance{Pkg: sn, Func: "VH_C18_framing", Args: []int64{2, 0}, Unwind: 64})
+			}
+			r = append(r, &Instance{Pkg: sn, Func: "VH_C18_framing_vacuity", Expect: "violated"})
+			r = append(r, &Instance{Pkg: pb, Func: "VH_C18_vacuity", Expect: "violated"})
+			return r
+		},
+		Covers: map[string][]string{"VH_C18_mvcc": {"end"}, "VH_C18_api": {"end"}, "VH_C18_replication": {"end"}, "VH_C18_pooledsend": {"end"}, "VH_C18_framing": {"end"}},
+		Bounds: map[string]string{
+			"quick":    "messages: every shape of Command (own optional fields; kv; batch 0..2; txn with 0..1 compare/success/failure of every op kind; sequence of 1..2), CommandResult, Txn, RequestOp, ResponseOp, Compare, KeyValue, Range/Put/DeleteRange/Txn request+response, ResponseHeader, ReplicateRequest/Response (all arms), SnapshotChunk; per run one byte-length class (absent, 1, 2 bytes) and one varint class (0; 1..64; 128..383; top bit set) for all fields of the message, every field with its own symbolic content; KeyValue and SnapshotChunk additionally with independent classes per field; SnapshotChunk into a pooled object that held another chunk, and re-used after ResetVT; Command built on a recycled pooled object. framing: 1 record of 1..3 arbitrary bytes, stream cut at every position (reader hands out 1..n bytes per call), received via WriteTo and via Read",
+			"thorough": "framing with 2 records",
+		},
+		Outside: "gzip / snappy / zstd compressors and their pooled state under concurrency: compression kernels cannot be encoded (declined; the snappy layer inside the snapshot file is an identity pipe here); fields longer than 2 bytes; varint lengths 3..9; mixed presence patterns inside nested messages; the backup tar writer",
+		Assumptions: []string{"the real generated vtproto code and the registered Codec are executed; sync.Pool is a LIFO list (reuse always happens)"},
+	}
 }
